@@ -579,7 +579,12 @@ class spawn(SpawnBase):
         self._log(s, 'send')
 
         b = self._encoder.encode(s, final=False)
-        return os.write(self.child_fd, b)
+        # os.write() may take only part of a large payload (e.g. when a signal
+        # handler runs in the middle of it): hand over the rest as well.
+        written = os.write(self.child_fd, b)
+        while written < len(b):
+            written += os.write(self.child_fd, b[written:])
+        return written
 
     def sendline(self, s=''):
         '''Wraps send(), sending string ``s`` to child process, with
